@@ -286,6 +286,12 @@ def run_history(ctx, items, plan, mode, case):
         pass
     finally:
         if made_global:
+            # forget the synced palettes of this history (as a new process would): they would be
+            # re-registered, nested, on every later change of the global configuration and the
+            # recursion depth would grow with the number of histories run in this process
+            registry = getattr(akcolor, '_GSYNCED_PALETTES', None)
+            if isinstance(registry, dict):
+                registry.clear()
             akcolor.set_global_colors_config(None)
     if nontrivial:
         ctx.nontrivial(sig_of([{k: v['descr'] for k, v in items.items()}, plan]))
@@ -315,6 +321,8 @@ def run_shard(ctx):
     for i in range(ctx.cases):
         rng = ctx.rng(i)
         mode = "global" if i % 10 == 3 else "no_color" if i % 10 == 7 else "local"
+        if mode == "global" and getattr(akcolor, '_GSYNCED_PALETTES', None) is None and i > 300:
+            mode = "local"   # registry not found: keep the number of synced palettes in this process small
         _UNIQ[0] += 1
         prefix = "U%dx" % _UNIQ[0] if mode == "global" else ""
         items = gen_set(rng, prefix)
